@@ -89,6 +89,7 @@ type scheduler struct {
 	onceVC   map[*value]vclock
 	atomVC   map[*value]vclock
 	race     *raceState
+	conds    map[*value]*icond
 	nchan    int
 	switches int
 	log      []int // schedule: goroutine ids in order of switches
